@@ -385,10 +385,19 @@ def check_dataset(path, df, spec, o, fm, allow_orphans=False):
                 res["problems"].append(("metadata", "_common_metadata lists row groups"))
         else:
             got = []
-            for rg in rgs:
+            for ri, rg in enumerate(rgs):
                 cc = _fld(rg, 1)[2]
-                fps = set(bytes(_fld(c, 1)[1]).decode() if _fld(c, 1) else None for c in cc)
-                got.append((fps.pop() if len(fps) == 1 else repr(fps), _strip_paths(rg)))
+                # EVERY chunk is resolved through its OWN file_path (a specification reader does; fastparquet itself looks at
+                # columns[0] only): each must name an existing part file, and the chunks of one row group one and the same file
+                names = [bytes(_fld(c, 1)[1]).decode() if _fld(c, 1) else None for c in cc]
+                for ci, nm in enumerate(names):
+                    if nm is None or not os.path.isfile(os.path.join(path, nm)):
+                        res["problems"].append(("metadata", "_metadata row group %d column chunk %d names %r: no such file in the dataset" % (ri, ci, nm)))
+                        break
+                if len(set(names)) > 1:
+                    res["problems"].append(("metadata", "_metadata row group %d: its column chunks name different files %r" % (ri, sorted(set(map(str, names)))[:3])))
+                fps = set(names)
+                got.append((fps.pop() if len(fps) == 1 else repr(sorted(map(str, fps))), _strip_paths(rg)))
             if got != part_rgs:
                 res["problems"].append(("metadata", "_metadata row groups differ from the footers of the part files "
                                         "(%d vs %d row groups; first difference at %s)" % (
@@ -543,7 +552,12 @@ def _hist_job(h):
         path = os.path.join(tmp, "h.parquet" if o["file_scheme"] == "simple" else "h_ds")
         df = F.build(spec)
         try:
-            rt.write_frame(df, path, spec, o)
+            if o.get("partition"):
+                pk = o["partition"]
+                df[pk["name"]] = [["a", "b", "c"][(i // 2) % pk["k"]] for i in range(len(df))]
+                write_partitioned(df, path, spec, o)
+            else:
+                rt.write_frame(df, path, spec, o)
         except Exception as e:     # noqa
             return dict(out, outcome="write-raised", err="%s: %s" % (type(e).__name__, str(e)[:200]))
         expected = df.reset_index(drop=True)
@@ -569,7 +583,35 @@ def _hist_job(h):
                         yield f
                 raised = None
                 try:
-                    if st["via"] == "handle":
+                    if st["via"] == "remove":
+                        # RENUMBERING edit: drop row groups, part files renamed to close the gaps (api._sort_part_names)
+                        idx = [i for i in st["remove"] if i < len(pf.row_groups)]
+                        if len(idx) >= len(pf.row_groups):
+                            idx = idx[:-1]
+                        rows_before = [rg.num_rows for rg in pf.row_groups]
+                        pf.remove_row_groups([pf.row_groups[i] for i in idx], sort_pnames=st.get("sort_pnames", True))
+                        keep, at = [], 0
+                        for i, n in enumerate(rows_before):
+                            if i not in idx:
+                                keep += list(range(at, at + n))
+                            at += n
+                        expected = expected.iloc[keep].reset_index(drop=True)
+                        frames = []
+                    elif st["via"] == "overwrite":
+                        # append='overwrite' on a partitioned dataset: the partitions the new frame has values for are replaced
+                        pkn = o["partition"]["name"]
+                        new = frames[0]
+                        new[pkn] = [st["keys"][i % len(st["keys"])] for i in range(len(new))]
+                        new = new.sort_values(pkn, kind="stable").reset_index(drop=True)
+                        fastparquet.write(path, new, append="overwrite", partition_on=[pkn], file_scheme=o["file_scheme"],
+                                          compression=o["compression"], stats=o["stats"])
+                        pf = fastparquet.ParquetFile(path)
+                        expected = pd.concat([expected[~expected[pkn].isin(st["keys"])], new], ignore_index=True)
+                        frames = []
+                    elif st["via"] == "handle_sorted":
+                        pf.write_row_groups(frames[0], row_group_offsets=st.get("offsets"), compression=o["compression"], stats=o["stats"],
+                                            sort_pnames=True)
+                    elif st["via"] == "handle":
                         data = data_iter() if (len(frames) > 1 or fail) else frames[0]
                         pf.write_row_groups(data, row_group_offsets=st.get("offsets"), compression=o["compression"], stats=o["stats"])
                     else:
@@ -676,6 +718,52 @@ def gen_multi_histories(ctx):
                                           "offsets": None, "fail": {"kind": "iter", "at": rng.randrange(3)}})
             steps[-1]["via"] = "handle"
         hs.append({"spec": spec, "opts": o, "steps": steps, "multi": True})
+    return hs
+
+
+def gen_renumber_histories(ctx):
+    """multi-file datasets with RENUMBERING edits through one handle: remove_row_groups(..., sort_pnames=True) (the part files behind the
+    gap are renamed), write_row_groups(..., sort_pnames=True), further appends - 2 or 3 columns, so that a row group has chunks beyond the
+    first; after every step every chunk of every row group of _metadata is resolved through its own file_path"""
+    from harness import rt
+    rng = ctx.rng
+    hs = []
+    for i in range(12 if ctx.quick() else 100):
+        kinds = [rng.choice(["int64", "float64", "str", "dt_ns", "Int32", "bool"]) for _ in range(rng.choice([2, 3]))]
+        p0 = rng.choice([3, 5, 9, 11, 12])
+        spec = F.gen_spec(rng, n=p0 * 2, ncols=0, index=False)
+        spec["cols"] = [{"name": "c%d_%s" % (j, k), "kind": k, "nulls": rng.choice(["none", "some"]), "seed": rng.randrange(1 << 30)}
+                        for j, k in enumerate(kinds)]
+        o = rt.gen_opts(rng, spec)
+        o.update(file_scheme=rng.choice(["hive", "drill"]), write_index=False, has_nulls=True, object_encoding="infer",
+                 row_group_offsets=2, page_size=None, compression=rng.choice([None, "SNAPPY"]))
+        steps = []
+        for k in range(rng.choice([2, 3])):
+            r = rng.random()
+            if r < 0.5:
+                steps.append({"via": "remove", "remove": sorted(rng.sample(range(p0), rng.choice([1, 2]))) if k else [rng.randrange(0, p0 - 1)],
+                              "sort_pnames": True, "frames": [], "seeds": [], "offsets": None, "fail": None})
+            elif r < 0.75:
+                steps.append({"via": "handle_sorted", "frames": [4], "seeds": [rng.randrange(1 << 30)], "offsets": 2, "fail": None})
+            else:
+                steps.append({"via": rng.choice(["handle", "fresh"]), "frames": [2], "seeds": [rng.randrange(1 << 30)], "offsets": None, "fail": None})
+        if not any(st["via"] == "remove" for st in steps):
+            steps.insert(0, {"via": "remove", "remove": [rng.randrange(0, p0 - 1)], "sort_pnames": True, "frames": [], "seeds": [], "offsets": None, "fail": None})
+        hs.append({"spec": spec, "opts": o, "steps": steps, "multi": True, "renumber": True})
+    for i in range(4 if ctx.quick() else 40):
+        # partitioned dataset, append='overwrite' (part files of the replaced partitions go, the rest is renumbered)
+        kinds = [rng.choice(["int64", "float64", "str", "Int32"]) for _ in range(2)]
+        spec = F.gen_spec(rng, n=rng.choice([8, 12]), ncols=0, index=False)
+        spec["cols"] = [{"name": "c%d_%s" % (j, k), "kind": k, "nulls": "none", "seed": rng.randrange(1 << 30)} for j, k in enumerate(kinds)]
+        o = rt.gen_opts(rng, spec)
+        o.update(file_scheme="hive", write_index=False, has_nulls=True, object_encoding="infer", row_group_offsets=4, page_size=None,
+                 compression=None, partition={"name": "pkey", "kind": "str", "k": 3})
+        steps = [{"via": "overwrite", "keys": rng.choice([["a"], ["b"], ["a", "c"], ["c"]]), "frames": [4], "seeds": [rng.randrange(1 << 30)],
+                  "offsets": None, "fail": None}]
+        if rng.random() < 0.5:
+            steps.append({"via": "overwrite", "keys": rng.choice([["b"], ["a", "b"]]), "frames": [2], "seeds": [rng.randrange(1 << 30)],
+                          "offsets": None, "fail": None})
+        hs.append({"spec": spec, "opts": o, "steps": steps, "multi": True, "renumber": True})
     return hs
 
 
@@ -804,7 +892,7 @@ def run(ctx):
                 "file_scheme simple/hive/drill incl. _metadata/_common_metadata, partition_on a key column with 1..3 values, write_index); every written file -> pqref fmt_validate "
                 "+ fmt_decode; trivial = the write raised (allowed outcome); distinct = distinct (spec, options)")
     jobs = gen_jobs(ctx)
-    hists = gen_histories(ctx) + gen_multi_histories(ctx)
+    hists = gen_histories(ctx) + gen_multi_histories(ctx) + gen_renumber_histories(ctx)
     allres = C.pmap(_any_job, jobs + hists, init=_init, nproc=min(8, os.cpu_count() or 4), job_timeout=300)
     results, hres = allres[:len(jobs)], allres[len(jobs):]
     run_histories(ctx, hists, hres)
@@ -903,7 +991,7 @@ def run_histories(ctx, hists, hres):
         ctx.count("history_steps", len(h["steps"]))
         ctx.count("history_scheme", h["opts"]["file_scheme"])
         for st in h["steps"]:
-            ctx.count("history_step", "%s/%s" % (st["via"], (st["fail"] or {}).get("kind", "succeeds")))
+            ctx.count("history_step", "%s/%s" % (st["via"], (st.get("fail") or {}).get("kind", "succeeds")))
         if res["outcome"] == "harness-error":
             ctx.broken.append({"kind": "harness-error", "name": "history", "detail": res["err"]})
             continue
